@@ -244,11 +244,12 @@ def oracle(t):
     return None
 
 
-def gen(ctx):
+def gen(ctx, cids=None, extras=True):
     rng = ctx.rng
     rules = all_rules()
     ops = []
-    cids = cal_ids()
+    allcids = cal_ids()
+    cids = allcids if cids is None else cids
     for cid in cids:
         c, calc, mn, mx, mnd, mxd = cal_info(cid)
         years = {mn, mn + 1, mx - 1, mx} | {rng.randint(mn + 1, mx - 1) for _ in range(ctx.scale(8, 200))}
@@ -259,6 +260,8 @@ def gen(ctx):
             if ry is None:
                 continue
             rs = rules if ctx.thorough or cid in ("ISO", "Hebrew Civil", "Hijri Civil-Indian (base 15)") else rng.sample(rules, 12) + [(4, 1, 0)]
+            if cid == "ISO" and ctx.thorough and y % 40 != 0:
+                rs = [(4, 1, 0)] + rng.sample(rules, 3)  # every year with the ISO rule (vs isocalendar), all 71 rules every 40th year
             if cid == "ISO" and not ctx.thorough and y < 2015:
                 rs = rng.sample(rules, 20) + [(4, 1, 0)]
             for rule in rs:
@@ -295,9 +298,11 @@ def gen(ctx):
                         line = f"wy.date {pre2} {wy} {w} {dow}"
                         SIDE[line] = (cid, rule)
                         ops.append(line)
+    if not extras:
+        return ops
     # weekday navigation
     for _ in range(ctx.scale(6000, 300000)):
-        cid = rng.choice(cids)
+        cid = rng.choice(allcids)
         c, calc, mn, mx, mnd, mxd = cal_info(cid)
         d = rng.choice([mnd + rng.randint(0, 8), mxd - rng.randint(0, 8), -3, -4, -2, 0, rng.randint(mnd, mxd), rng.randint(-10, 10)])
         if not (mnd <= d <= mxd):
@@ -315,9 +320,20 @@ def gen(ctx):
     return ops
 
 
-def run(ctx):
-    ops = gen(ctx)
+def _explore(ctx, chunk):
+    cids, extras = chunk
+    ops = gen(ctx, cids, extras)
     ctx.correspond("weekyear.ops", ops, impl, oracle=oracle)
+
+
+def run(ctx):
+    if ctx.thorough:
+        cids = cal_ids()
+        # ISO carries all years 1..9999 in the thorough tier: give it its own workers by splitting the rules later if needed
+        chunks = [([c], False) for c in cids] + [([], True)]
+        ctx.parallel(_explore, chunks)
+    else:
+        _explore(ctx, (None, True))
     ctx.note("rules", len(all_rules()))
     ctx.note("calendars", len(cal_ids()))
 
